@@ -335,17 +335,10 @@ func runWrite(id string, cs *wCase, rng *rand.Rand, wire *wireEnv) map[string]an
 		sent = append(sent, r.Data...)
 	}
 	if cs.Comp == "zstd" {
-		dec, derr := zstd.NewReader(bytes.NewReader(sent))
-		if derr == nil {
-			var plain []byte
-			plain, derr = io.ReadAll(dec)
-			dec.Close()
-			sent = plain
-		}
-		o["payloadMatches"] = derr == nil && bytes.Equal(sent, object)
-	} else {
-		o["payloadMatches"] = bytes.Equal(sent, object)
+		// what a decoder yields from the stream (whether or not it then complains about what follows the data)
+		sent = zstdDecodeBestEffort(sent)
 	}
+	o["payloadMatches"] = bytes.Equal(sent, object)
 	stored, data := be.has(d)
 	o["stored"], o["storedIntact"] = stored, !stored || bytes.Equal(data, object)
 	o["otherObjects"] = len(be.objs) - map[bool]int{true: 1, false: 0}[stored]
